@@ -192,6 +192,23 @@ func runC19(w *mon.W) {
 			n = 2 + r.Intn(30)
 		}
 		s := randString(r, "ACGT", n)
+		if i%10 == 9 {
+			// low complexity: homopolymers, short repeats, one base dominating (a pair occurring up to 199 times)
+			switch r.Intn(3) {
+			case 0:
+				s = strings.Repeat(randString(r, "ACGT", 1), n)
+			case 1:
+				u := randString(r, "ACGT", 1+r.Intn(3))
+				s = strings.Repeat(u, n/len(u)+1)[:n]
+			default:
+				b := []byte(strings.Repeat(randString(r, "ACGT", 1), n))
+				for k := r.Intn(4); k > 0; k-- {
+					b[r.Intn(n)] = "ACGT"[r.Intn(4)]
+				}
+				s = string(b)
+			}
+			w.Add("low_complexity_oligos", 1)
+		}
 		if r.Intn(6) == 0 { // self-complementary
 			h := randString(r, "ACGT", n/2+1)
 			s = h + oracle.MustRevComp(h)
